@@ -1,6 +1,8 @@
 package props
 
 import (
+	"strings"
+	"math"
 	"fmt"
 	"math/rand"
 	"sort"
@@ -22,7 +24,7 @@ func init() {
 			"odd cases: one derived frame with Select/Drop/Copy requests (valid and invalid) and Slice bounds (all (a,b) in [-1,n+1]^2 when n<=12, random otherwise) compared with the shadow projection; " +
 			"non-trivial = corrupted input, or projection on a frame with non-identity index; distinct by request text + frame ids",
 		Assumptions: []string{
-			"not demanded: duplicates inside ColumnOrder/Select, Select() and Drop of every column, Drop of unknown names (ignored by the implementation), negative Const counts",
+			"Drop requests naming a column repeatedly and Drop() are demanded (the remaining columns are unambiguous); not demanded: duplicates inside ColumnOrder/Select, Select() and Drop of every column, Drop of unknown names (ignored by the implementation), negative Const counts",
 			"observation through typed views is faithful (C09)",
 		},
 		Stages:  stages(20000, 2500000, 0, 0),
@@ -66,7 +68,7 @@ func colData(rng *rand.Rand, col *model.Col) types.DataSlice {
 	n := col.Len()
 	switch col.Kind {
 	case model.KInt:
-		if n > 0 && rng.Intn(5) == 0 {
+		if n > 0 && rng.Intn(2) == 0 {
 			same := true
 			for _, v := range col.I {
 				same = same && v == col.I[0]
@@ -77,10 +79,41 @@ func colData(rng *rand.Rand, col *model.Col) types.DataSlice {
 		}
 		return append([]int{}, col.I...)
 	case model.KFloat:
+		if n > 0 && rng.Intn(2) == 0 {
+			same := true
+			for _, v := range col.F {
+				same = same && math.Float64bits(v) == math.Float64bits(col.F[0])
+			}
+			if same {
+				return qframe.ConstFloat{Val: col.F[0], Count: n}
+			}
+		}
 		return append([]float64{}, col.F...)
 	case model.KBool:
+		if n > 0 && rng.Intn(2) == 0 {
+			same := true
+			for _, v := range col.B {
+				same = same && v == col.B[0]
+			}
+			if same {
+				return qframe.ConstBool{Val: col.B[0], Count: n}
+			}
+		}
 		return append([]bool{}, col.B...)
 	default:
+		if n > 0 && rng.Intn(4) == 0 {
+			same := true
+			for _, v := range col.S {
+				same = same && (v == nil) == (col.S[0] == nil) && (v == nil || *v == *col.S[0])
+			}
+			if same {
+				var p *string
+				if col.S[0] != nil {
+					p = model.StrP(*col.S[0])
+				}
+				return qframe.ConstString{Val: p, Count: n}
+			}
+		}
 		allNonNil := true
 		for _, s := range col.S {
 			allNonNil = allNonNil && s != nil
@@ -127,6 +160,9 @@ func c08New(c *fw.Case) {
 	if rng.Intn(4) == 0 {
 		// constant columns exercise Const*
 		for _, col := range f.Cols {
+			if col.Kind == model.KFloat && col.Len() > 0 && rng.Intn(4) == 0 {
+				col.F[0] = []float64{math.Copysign(0, -1), model.NaNPayload, math.Inf(-1), 5e-324}[rng.Intn(4)]
+			}
 			for i := 1; i < col.Len(); i++ {
 				col.Set(i, col, 0)
 			}
@@ -249,8 +285,15 @@ func c08New(c *fw.Case) {
 				}
 			}
 			bad.data[name] = colData(rng, short)
-			if _, isConst := bad.data[name].(qframe.ConstInt); isConst {
+			switch bad.data[name].(type) {
+			case qframe.ConstInt:
 				bad.data[name] = append([]int{}, short.I...)
+			case qframe.ConstFloat:
+				bad.data[name] = append([]float64{}, short.F...)
+			case qframe.ConstBool:
+				bad.data[name] = append([]bool{}, short.B...)
+			case qframe.ConstString:
+				bad.data[name] = make([]*string, newLen)
 			}
 			expectErr(fmt.Sprintf("length-mismatch column %d of %d (%q) has %d rows, others %d", pos, len(f.Cols), name, newLen, rows), bad)
 		}
@@ -290,6 +333,55 @@ func c08New(c *fw.Case) {
 		}
 		bad.enums["absent-enum-column"] = []string{"a"}
 		expectErr("enums-absent column named in Enums", bad)
+	}
+	// (d') an enum column holding a value outside its declared values, in every encoding of the column,
+	// next to the other columns and as the only column of the input
+	{
+		n := rows
+		if n == 0 {
+			n = 1 + rng.Intn(3)
+		}
+		for _, alone := range []bool{false, true} {
+			if !alone && rows == 0 && len(f.Cols) > 0 {
+				continue // the other columns are empty: n rows would be a length mismatch as well
+			}
+			bad := clone()
+			if alone {
+				bad = &newInput{data: map[string]types.DataSlice{}}
+			}
+			name := "enum-with-undeclared-value"
+			declared := []string{"a", "b", "c"}
+			outside := []string{"d", "A", "", "ab"}[rng.Intn(4)]
+			var v types.DataSlice
+			enc := rng.Intn(3)
+			switch enc {
+			case 0:
+				v = qframe.ConstString{Val: model.StrP(outside), Count: n}
+			case 1:
+				sp := make([]*string, n)
+				for i := range sp {
+					sp[i] = model.StrP(declared[rng.Intn(3)])
+				}
+				sp[rng.Intn(n)] = model.StrP(outside)
+				v = sp
+			default:
+				ss := make([]string, n)
+				for i := range ss {
+					ss[i] = declared[rng.Intn(3)]
+				}
+				ss[rng.Intn(n)] = outside
+				v = ss
+			}
+			bad.data[name] = v
+			if bad.enums == nil {
+				bad.enums = map[string][]string{}
+			}
+			bad.enums[name] = declared
+			if bad.order != nil {
+				bad.order = append(bad.order, name)
+			}
+			expectErr(fmt.Sprintf("enum-undeclared value %q in a column declared over %q (encoding %d, only column: %v)", outside, declared, enc, alone), bad)
+		}
 	}
 	// (e) unsupported data type
 	{
@@ -382,7 +474,7 @@ func c08Project(c *fw.Case) {
 			c.Nontrivial(req, idKey(sh.IDs()), fmt.Sprint(names))
 		}
 		var res qframe.QFrame
-		kind := firstWord(req)
+		kind := strings.SplitN(firstWord(req), "(", 2)[0]
 		if !c.GuardFail(kind, req, func() { res = f() }) {
 			return
 		}
@@ -444,6 +536,16 @@ func c08Project(c *fw.Case) {
 			}
 		}
 		check(fmt.Sprintf("Drop(%q)", dl), true, want, func() qframe.QFrame { return root.QF.Drop(dl...) })
+		// the same request naming columns more than once (as many or more arguments than the frame has columns):
+		// the remaining columns are the same
+		rep := append([]string(nil), dl...)
+		for len(rep) < len(names)+rng.Intn(3) {
+			rep = append(rep, dl[rng.Intn(len(dl))])
+		}
+		rng.Shuffle(len(rep), func(i, j int) { rep[i], rep[j] = rep[j], rep[i] })
+		check(fmt.Sprintf("Drop(%q)", rep), true, want, func() qframe.QFrame { return root.QF.Drop(rep...) })
+		// no arguments: nothing is dropped
+		check("Drop()", true, &model.Frame{Cols: append([]*model.Col(nil), sh.Cols...)}, func() qframe.QFrame { return root.QF.Drop() })
 	}
 	// Copy
 	{
